@@ -1245,6 +1245,14 @@ class Interp(object):
             return -v
         if isinstance(e.op, ast.UAdd):
             return v
+        if isinstance(e.op, ast.Invert):
+            if hasattr(v, 'sym_invert'):
+                return v.sym_invert(self)
+            if isinstance(v, Cond):
+                return v.neg()
+            if isinstance(v, bool):
+                return not v
+            return ~v
         raise CheckerError('unsupported unary op')
 
     def ex_Compare(self, e, fr):
@@ -1470,6 +1478,15 @@ class Interp(object):
     def sym_mod(self, a, b, node):
         raise CheckerError('line %d: symbolic modulo needs a contract' % node.lineno)
 
+    def ex_Yield(self, e, fr):
+        f = fr
+        while f is not None and not hasattr(f, 'yielded'):
+            f = f.func.closure if (f.func is not None and f.func.closure is not None) else None
+        if f is None:
+            raise CheckerError('yield outside a generator function')
+        f.yielded.append(None if e.value is None else self.eval(e.value, fr))
+        return None
+
     def ex_Starred(self, e, fr):
         raise CheckerError('starred expression outside call/tuple')
 
@@ -1586,12 +1603,22 @@ class Interp(object):
         if self.call_depth > 60:
             raise CheckerError('call depth exceeded in %s' % f.qualname)
         self.trace_calls.append(f.qualname)
+        is_gen = getattr(f, '_is_gen', None)
+        if is_gen is None:
+            is_gen = any(isinstance(n, (ast.Yield, ast.YieldFrom)) for n in ast.walk(f.node) if n is not f.node)
+            f._is_gen = is_gen
+        if is_gen:
+            # generator functions are run eagerly: the yielded values are collected in a list (sound when the consumer
+            # does not mutate what the generator reads between two items; assumption recorded by the checks)
+            fr.yielded = []
         try:
             try:
                 self.exec_block(f.node.body, fr)
                 rv = None
             except _Return as r:
                 rv = r.v
+            if is_gen:
+                rv = fr.yielded
             h = self.return_hooks.get(f.qualname)
             if h is not None:
                 h(self, fr, rv)
